@@ -80,8 +80,26 @@ def cases(draw, stratum):
     if action == 'delete_model':
         vm = sorted(spec['apps'][victim]['models'])
         model = draw(st.sampled_from(vm))
+    # a surviving app that, in the same release, gets an AppConfig label different from its
+    # module name (with the RenameAppLabel evolution that goes with it): stored under its old
+    # label, it must not be mistaken for a removed app
+    relabel = None
+    if action in ('purge', 'no_purge'):
+        eligible = []
+        for a in apps:
+            if a == victim or a not in spec['apps'] or not spec['apps'][a]['models']:
+                continue
+            out_ok = all(f['target'] is None or f['target'][0] == a
+                         for _n, m in spec['apps'][a]['models'].items() for f in m['fields'])
+            in_ok = all(not (f['target'] and f['target'][0] == a)
+                        for a2, _n, m in S.iter_models(spec) if a2 != a for f in m['fields'])
+            if out_ok and in_ok:
+                eligible.append(a)
+        if eligible and draw(st.booleans()):
+            relabel = draw(st.sampled_from(eligible))
     return {'spec': spec, 'victim': victim, 'action': action, 'model': model, 'rows': rows,
-            'links': links, 'entry': draw(st.sampled_from(['api', 'evolve_cmd']))}
+            'links': links, 'entry': draw(st.sampled_from(['api', 'evolve_cmd'])),
+            'relabel': relabel}
 
 
 def jobs(tier, scale=1.0):
@@ -183,6 +201,35 @@ def check(case):
         out['labels'].append('named_has_m2m')
     v0 = {'spec': spec, 'apps': apps, 'evolutions': evolutions0, 'deps': {}}
     v1 = {'spec': after_spec, 'apps': apps1, 'evolutions': evolutions1, 'deps': {}}
+    relabel = case.get('relabel')
+    NEW = 'pz'
+    if relabel:
+        if relabel == victim or relabel not in after_spec['apps'] or \
+                action not in ('purge', 'no_purge'):
+            out['rejected'] = 'relabel_not_applicable'
+            return out
+        out['labels'].append('surviving_app_relabelled')
+        # the tables keep their names: explicit db_table before and after
+        for sp in (spec, after_spec):
+            for _n, m in sp['apps'][relabel]['models'].items():
+                if not m['db_table']:
+                    m['db_table'] = S.table_of(relabel, m)
+        after_spec['apps'][NEW] = after_spec['apps'].pop(relabel)
+        for _n, m in after_spec['apps'][NEW]['models'].items():
+            for f in m['fields']:
+                if f['target'] and f['target'][0] == relabel:
+                    f['target'] = [NEW, f['target'][1]]
+        v1['apps'] = [NEW if a == relabel else a for a in apps1]
+        evolutions1.pop(relabel, None)
+        evolutions1[NEW] = [{'label': 'relabel', 'mutations': [
+            {'kind': 'RenameAppLabel', 'app': NEW, 'old': relabel, 'new': NEW,
+             'legacy': relabel}]}]
+        v1['app_modules'] = {NEW: relabel}
+        try:
+            R.validate(after_spec)
+        except R.RefInvalid:
+            out['rejected'] = 'relabel_not_applicable'
+            return out
     with P.Scratch('c15_') as sc:
         dirs = H.write_versions(sc, [v0, v1])
         db = sc.sub('db.sqlite3')
@@ -234,6 +281,16 @@ def check(case):
     for app in sorted(set(sb) | set(sa)):
         if app in ('contenttypes', 'django_evolution'):
             continue
+        if relabel and app in (relabel, NEW):
+            if app == relabel:
+                if app in sa:
+                    atoms.append(['relabelled_app_still_under_old_label', action])
+                if NEW not in sa:
+                    atoms.append(['relabelled_app_missing_from_signature', action])
+                elif sa[NEW]['models'] != sb[relabel]['models']:
+                    atoms.append(['relabelled_app_models_differ', action, sb[relabel]['models'],
+                                  sa[NEW]['models']])
+            continue
         if app == victim:
             if action == 'purge':
                 if app in sa and sa[app]['models']:
@@ -251,7 +308,7 @@ def check(case):
         else:
             if app not in sa or app not in sb or sa[app]['serialized'] != sb[app]['serialized']:
                 atoms.append(['other_app_signature_changed', action, app])
-    if action == 'no_purge' and s['n_change']:
+    if action == 'no_purge' and s['n_change'] and not relabel:
         from .. import inproc
         chg = [t[2] for t in s['trace'] if t[0] == 'sql' and inproc.is_change(t[2])
                and 'django_project_version' not in t[2] and 'django_evolution' not in t[2]]
